@@ -199,3 +199,36 @@ func closes(cs []closeEv) string {
 	}
 	return "[" + strings.Join(s, " ") + "]"
 }
+
+// firstClose returns the earliest OnClose seen on either side.
+func (p *pair) firstClose() (who string, ev closeEv, any bool) {
+	ev.At = 1 << 62
+	// at the same virtual instant the side that reports a ping timeout is the cause, the other side's
+	// transport close its consequence
+	better := func(c closeEv) bool {
+		return c.At < ev.At || (c.At == ev.At && c.Reason == "ping timeout" && ev.Reason != "ping timeout")
+	}
+	for _, c := range p.srvClose {
+		if better(c) {
+			who, ev, any = "server", c, true
+		}
+	}
+	for _, c := range p.cliClose {
+		if better(c) {
+			who, ev, any = "client", c, true
+		}
+	}
+	return
+}
+
+// liveKillKey is the violation key for "a connection whose link works was closed".
+func liveKillKey(what string, p *pair) string {
+	who, ev, _ := p.firstClose()
+	return fmt.Sprintf("%s (first: %s reports %s)", what, who, ev.Reason)
+}
+
+const (
+	killIdle    = "live idle peer disconnected by the heartbeat"
+	killTraffic = "live peer with application traffic disconnected by the heartbeat"
+	killLatency = "live peer answering every ping within pingTimeout/4 disconnected by the heartbeat"
+)
